@@ -46,3 +46,4 @@ def run(ctx, R):
     x86hsem.rule_cbranch(ctx, R)
     a64hsem.rule_cbranch(ctx, R)
     rtpreserve.rule_const(ctx, R, 'rvv')     # the CBRANCH mask register of the vector back-end
+    jitcross.rule_lwexec_a64(ctx, R)
